@@ -30,6 +30,9 @@ def handlers : List Handler := [
 def step (st : St) (line : String) : St × String :=
   match (line.trimAscii.toString.splitOn " ").filter (· ≠ "") with
   | [] => (st, "")
+  | "case" :: _ =>
+    -- start of a stateful sequence: every module's session state is reset; only the basis table survives
+    ({ basis := st.basis }, "ok")
   | op :: args =>
     let rec go : List Handler → St × String
       | [] => (st, "bad-op")
